@@ -1,6 +1,7 @@
 package main
 
 import (
+	"net"
 	"math/bits"
 	"crypto/ecdh"
 	"crypto/ed25519"
@@ -1378,5 +1379,27 @@ func init() {
 			arr[i] = int64(st[i])
 		}
 		return nil
+	})
+}
+
+func init() {
+	// net.ParseIP / IP.String go through net/netip, whose zone handles are built at package initialisation
+	reg("net.ParseIP", func(m *Machine, fr *frame, a []Value) Value {
+		s, ok := a[0].(string)
+		if !ok {
+			panic(pathEnd{kind: "unsupported", msg: "net.ParseIP of a symbolic string"})
+		}
+		ip := net.ParseIP(s)
+		if ip == nil {
+			return Slice(nil)
+		}
+		return bytesOf(ip)
+	})
+	reg("(net.IP).String", func(m *Machine, fr *frame, a []Value) Value {
+		b, ok := concBytes(a[0])
+		if !ok {
+			panic(pathEnd{kind: "unsupported", msg: "net.IP.String of symbolic bytes"})
+		}
+		return net.IP(b).String()
 	})
 }
